@@ -548,6 +548,12 @@ func (s *state) attackerTLS() {
 			ck := newKey()
 			return [][]byte{mkCert(ck, []pkix.Extension{xExt(xc)})}, ck
 		}},
+		// the same forgery presented AFTER the victim has verified X's genuine certificate in an earlier,
+		// honest session (anything the verifier remembers between sessions must not vouch for another key)
+		{"extension-copied-after-genuine-session", false, func(K, X *sectest.Key, xc []byte) ([][]byte, *ecdsa.PrivateKey) {
+			ck := newKey()
+			return [][]byte{mkCert(ck, []pkix.Extension{xExt(xc)})}, ck
+		}},
 		{"extension-absent", false, func(K, X *sectest.Key, _ []byte) ([][]byte, *ecdsa.PrivateKey) {
 			ck := newKey()
 			return [][]byte{mkCert(ck, nil)}, ck
@@ -616,6 +622,63 @@ func (s *state) attackerTLS() {
 							}
 							xconf, _ := xid.ConfigForPeer("")
 							xCert := xconf.Certificates[0].Certificate[0]
+							vt := sectest.NewTLS(V)
+							if vr.name == "extension-copied-after-genuine-session" {
+								// X's real transport: the victim completes an honest handshake with it (same role as
+								// in the attack), and the attacker fetches the very certificate X serves
+								xt := sectest.NewTLS(X)
+								pa, pb := memnet.Pipe(addrI, addrR, 0)
+								var hw sync.WaitGroup
+								hw.Add(2)
+								go func() {
+									defer hw.Done()
+									var c sec.SecureConn
+									var err error
+									if md.initiator {
+										c, err = vt.SecureOutbound(ctx, pa, X.ID)
+									} else {
+										c, err = vt.SecureInbound(ctx, pa, "")
+									}
+									if err == nil {
+										c.Write([]byte("x"))
+										c.Close()
+									}
+									pa.Close()
+								}()
+								go func() {
+									defer hw.Done()
+									var c sec.SecureConn
+									var err error
+									if md.initiator {
+										c, err = xt.SecureInbound(ctx, pb, "")
+									} else {
+										c, err = xt.SecureOutbound(ctx, pb, V.ID)
+									}
+									if err == nil {
+										io.Copy(io.Discard, c)
+										c.Close()
+									}
+									pb.Close()
+								}()
+								hw.Wait()
+								// fetch X's served certificate as an ordinary TLS peer
+								fa, fb := memnet.Pipe(addrI, addrR, 0)
+								fk := newKey()
+								fcert := tls.Certificate{Certificate: [][]byte{mkCert(fk, []pkix.Extension{validExt(K, fk, false)})}, PrivateKey: fk}
+								go func() {
+									c, err := xt.SecureInbound(ctx, fb, "")
+									if err == nil {
+										c.Close()
+									}
+									fb.Close()
+								}()
+								fc := tls.Client(fa, &tls.Config{Certificates: []tls.Certificate{fcert}, InsecureSkipVerify: true, NextProtos: []string{"libp2p"}, MinVersion: tls.VersionTLS13})
+								fa.SetDeadline(time.Now().Add(10 * time.Second))
+								if err := fc.HandshakeContext(ctx); err == nil && len(fc.ConnectionState().PeerCertificates) > 0 {
+									xCert = fc.ConnectionState().PeerCertificates[0].Raw
+								}
+								fa.Close()
+							}
 							chain, hk := vr.mk(K, X, xCert)
 							acert := tls.Certificate{Certificate: chain, PrivateKey: hk}
 							a, b := memnet.Pipe(addrI, addrR, 0)
@@ -626,7 +689,6 @@ func (s *state) attackerTLS() {
 							case "K":
 								cfg.Expect = K.ID
 							}
-							vt := sectest.NewTLS(V)
 							var wg sync.WaitGroup
 							wg.Add(1)
 							go func() {
